@@ -11,6 +11,7 @@ import (
 
 	"verif/checker/internal/engine"
 	"verif/checker/internal/load"
+	"verif/checker/internal/peg"
 	"verif/checker/internal/report"
 )
 
@@ -19,6 +20,9 @@ func init() {
 	engine.Register("R-ERR-PURE", ruleErrPure)
 	engine.Register("P-NILRET", rulePNilRet)
 	engine.Register("V-PARAM-ALWAYS", ruleVParamAlways)
+	engine.Register("N-APPLY", ruleNApply)
+	engine.Register("N-DELEGATE", ruleNDelegate)
+	engine.Register("W-QUOTES", ruleWQuotes)
 }
 
 // generatedMethod returns the call of the generated parser's method `name` in fn (static callee
@@ -455,3 +459,385 @@ func ruleVParamAlways(c *engine.Context) *report.Rule {
 }
 
 var _ = strings.TrimSpace
+
+// ruleNApply: N-APPLY — in the helpers of the basic node that either hand a selected value to the
+// next step or emit it: when a next step exists it is applied, unconditionally, and its result is
+// what the helper returns; a value is emitted only when there is no next step.
+func ruleNApply(c *engine.Context) *report.Rule {
+	r := report.NewRule("N-APPLY", "a selected value is handed to the next step whenever one exists, and emitted only at the end of the chain", 3)
+	p := c.P
+	bst, ok := p.Roles.BasicNode.Underlying().(*types.Struct)
+	if !ok {
+		r.InfraFail("anchor unresolved: basic node")
+		return r
+	}
+	nextField := -1
+	for i := 0; i < bst.NumFields(); i++ {
+		if types.Identical(bst.Field(i).Type(), p.Roles.NodeIface) {
+			nextField = i
+		}
+	}
+	isNextLoad := func(v ssa.Value, fn *ssa.Function) bool {
+		ld, ok := v.(*ssa.UnOp)
+		if !ok || ld.Op != token.MUL {
+			return false
+		}
+		fa, ok := ld.X.(*ssa.FieldAddr)
+		return ok && fa.Field == nextField && len(fn.Params) > 0 && fa.X == ssa.Value(fn.Params[0])
+	}
+	emits := findEmitSites(c)
+	byFn := map[*ssa.Function][]*emitSite{}
+	for _, es := range emits {
+		byFn[es.fn] = append(byFn[es.fn], es)
+	}
+	var fns []*ssa.Function
+	for fn := range byFn {
+		fns = append(fns, fn)
+	}
+	sort.Slice(fns, func(i, j int) bool { return load.FuncName(fns[i]) < load.FuncName(fns[j]) })
+	for _, fn := range fns {
+		// the helper's own invocation of the next step
+		var inv *ssa.Call
+		for _, b := range fn.Blocks {
+			for _, ins := range b.Instrs {
+				if call, ok := ins.(*ssa.Call); ok && call.Call.IsInvoke() && call.Call.Method.Name() == p.Roles.RetrieveName && isNextLoad(call.Call.Value, fn) {
+					inv = call
+				}
+			}
+		}
+		if inv == nil {
+			continue
+		}
+		r.Instances++
+		var problems []string
+		var at ssa.Instruction
+		// the guard `next != nil`
+		var guard *ssa.If
+		var nonNilSucc *ssa.BasicBlock
+		for _, b := range fn.Blocks {
+			ifi, ok := b.Instrs[len(b.Instrs)-1].(*ssa.If)
+			if !ok {
+				continue
+			}
+			bo, ok := ifi.Cond.(*ssa.BinOp)
+			if !ok || (bo.Op != token.NEQ && bo.Op != token.EQL) {
+				continue
+			}
+			var other ssa.Value
+			if isNilConstV(bo.Y) {
+				other = bo.X
+			} else if isNilConstV(bo.X) {
+				other = bo.Y
+			}
+			if other == nil || !isNextLoad(other, fn) {
+				continue
+			}
+			guard = ifi
+			nonNilSucc = b.Succs[0]
+			if bo.Op == token.EQL {
+				nonNilSucc = b.Succs[1]
+			}
+		}
+		if guard == nil {
+			problems = append(problems, "no test whether a next step exists")
+		} else {
+			// every return reachable from the non-nil edge returns the step's result, and the step is applied at once
+			if inv.Block() != nonNilSucc {
+				problems, at = append(problems, "between finding that a next step exists and applying it, something else can happen (the step is not applied unconditionally)"), inv
+			}
+			for _, b := range fn.Blocks {
+				if !(b == nonNilSucc || nonNilSucc.Dominates(b)) {
+					continue
+				}
+				if ret, isRet := b.Instrs[len(b.Instrs)-1].(*ssa.Return); isRet && len(ret.Results) == 1 && ret.Results[0] != ssa.Value(inv) {
+					problems, at = append(problems, "with a next step present the helper can return something other than that step's result"), ret
+				}
+			}
+			// a return that skips the step: any Return not dominated by the guard's block … is before the test (lookup miss etc.): fine
+			// emission only where no next step exists
+			for _, es := range byFn[fn] {
+				nilKnown := false
+				for _, dc := range dominatingConds(es.block) {
+					if dc.at == guard {
+						nilKnown = true
+					}
+				}
+				if !nilKnown || es.block == nonNilSucc || nonNilSucc.Dominates(es.block) {
+					problems, at = append(problems, "a value is emitted on a path where a next step may exist (the step is never applied to it)"), es.call
+				}
+			}
+			// nothing between the function entry and the guard may return success (nil) silently
+			for _, b := range fn.Blocks {
+				if b == guard.Block() || guard.Block().Dominates(b) {
+					continue
+				}
+				if ret, isRet := b.Instrs[len(b.Instrs)-1].(*ssa.Return); isRet && len(ret.Results) == 1 {
+					if cst, isC := ret.Results[0].(*ssa.Const); isC && cst.IsNil() {
+						problems, at = append(problems, "the helper can report success before it has looked at the next step or emitted anything"), ret
+					}
+				}
+			}
+		}
+		problems = uniqSorted(problems)
+		r.Oblige(len(problems) == 0)
+		r.Sample("%s: next step applied whenever present, emission only at the end of the chain: %v", load.FuncName(fn), len(problems) == 0)
+		if len(problems) > 0 {
+			pos := p.RelPos(fn.Pos())
+			if at != nil {
+				pos = p.RelPos(at.Pos())
+			}
+			f := r.Violation(load.FuncName(fn)+" does not always apply the next step", pos, "%s: %s", load.FuncName(fn), strings.Join(problems, "; "))
+			engine.Restrict(f, "C01", "C08", "C12", "C13", "C14")
+		}
+	}
+	return r
+}
+
+// ruleNDelegate: N-DELEGATE — a composite node that hands its own `current` value to one of its
+// member nodes does so only after it has established, by a successful type test of that value (or
+// by passing the typed result of such a test), that the value is of a kind the composite itself
+// navigates; otherwise the member node's type error — with the member's expected kind — is
+// reported for a step that accepts other kinds as well.
+func ruleNDelegate(c *engine.Context) *report.Rule {
+	r := report.NewRule("N-DELEGATE", "a composite node delegates its current value to a member node only under a successful type test of that value", 1)
+	p := c.P
+	comp := compositeEdges(c)
+	for _, fn := range evalFuncs(c) {
+		if fn.Signature.Recv() == nil {
+			continue
+		}
+		rt := fn.Signature.Recv().Type()
+		if pt, ok := rt.(*types.Pointer); ok {
+			rt = pt.Elem()
+		}
+		T, ok := rt.(*types.Named)
+		if !ok || len(comp[T]) == 0 {
+			continue
+		}
+		n := 0
+		for _, b := range fn.Blocks {
+			for _, ins := range b.Instrs {
+				call, ok := ins.(*ssa.Call)
+				if !ok {
+					continue
+				}
+				var recv ssa.Value
+				var args []ssa.Value
+				if call.Call.IsInvoke() && call.Call.Method.Name() == p.Roles.RetrieveName {
+					recv, args = call.Call.Value, call.Call.Args
+				} else if sc := call.Call.StaticCallee(); sc != nil && sc.Name() == p.Roles.RetrieveName && len(call.Call.Args) == 4 {
+					recv, args = call.Call.Args[0], call.Call.Args[1:]
+				} else {
+					continue
+				}
+				if !derivesFromMemberEdge(recv, T, comp[T], 0) || len(args) < 2 {
+					continue
+				}
+				n++
+				r.Instances++
+				cur := args[1]
+				ok2 := false
+				how := ""
+				// the typed result of a successful test
+				if ex, isE := cur.(*ssa.Extract); isE && ex.Index == 0 {
+					if _, isTA := ex.Tuple.(*ssa.TypeAssert); isTA {
+						ok2, how = true, "the typed result of a type test"
+					}
+				}
+				if mi, isMI := cur.(*ssa.MakeInterface); isMI && !ok2 {
+					if _, isIface := mi.X.Type().Underlying().(*types.Interface); !isIface {
+						ok2, how = true, "a value of a static container type"
+					}
+				}
+				if !ok2 {
+					for _, dc := range dominatingConds(b) {
+						cond, neg := unwrapNot(dc.cond)
+						if x, _, isTT := typeTestsOf(cond); isTT && x == cur && dc.taken != neg {
+							ok2, how = true, "under a successful type test of the value"
+						}
+					}
+				}
+				r.Oblige(ok2)
+				r.Sample("%s: delegation #%d to a member node passes %s: %v", load.FuncName(fn), n, map[bool]string{true: how, false: "the untested current value"}[ok2], ok2)
+				if !ok2 {
+					f := r.Violation(fmt.Sprintf("%s: delegation #%d of an untested value", load.FuncName(fn), n), p.RelPos(call.Pos()),
+						"%s hands its current value to one of its member nodes without a successful type test of that value: for a value of another kind the member node's own type error is reported, whose expected kind describes the member and not this step (which accepts other kinds as well)", load.FuncName(fn))
+					engine.Restrict(f, "C15", "C20")
+				}
+			}
+		}
+	}
+	return r
+}
+
+// ---------------------------------------------------------------------------------------------
+// W-QUOTES: wherever the grammar offers a single-quoted and a double-quoted spelling of the same
+// thing (string literals in filters, quoted member names), the two alternatives are mirror images:
+// equal after exchanging the two quote characters everywhere. An edit to one of the two breaks
+// the equivalence of the spellings.
+
+func swapQuotes(s peg.RuneSet) peg.RuneSet {
+	hasS, hasD := s.Contains('\''), s.Contains('"')
+	if hasS == hasD {
+		return s
+	}
+	var out []peg.Interval
+	remove := func(iv peg.Interval, c rune) []peg.Interval {
+		if c < iv.Lo || c > iv.Hi {
+			return []peg.Interval{iv}
+		}
+		var r []peg.Interval
+		if c > iv.Lo {
+			r = append(r, peg.Interval{Lo: iv.Lo, Hi: c - 1})
+		}
+		if c < iv.Hi {
+			r = append(r, peg.Interval{Lo: c + 1, Hi: iv.Hi})
+		}
+		return r
+	}
+	for _, iv := range s {
+		for _, a := range remove(iv, '\'') {
+			out = append(out, remove(a, '"')...)
+		}
+	}
+	if hasS {
+		out = append(out, peg.Interval{Lo: '"', Hi: '"'})
+	} else {
+		out = append(out, peg.Interval{Lo: '\'', Hi: '\''})
+	}
+	return peg.NewSet(out...)
+}
+
+// mirrorString renders e with the two quote characters exchanged and actions dropped.
+func mirrorString(e peg.Expr, swap bool) string {
+	switch x := e.(type) {
+	case *peg.Seq:
+		var ss []string
+		for _, it := range x.Items {
+			if _, isA := it.(*peg.Action); isA {
+				continue
+			}
+			ss = append(ss, mirrorString(it, swap))
+		}
+		return "(" + strings.Join(ss, " ") + ")"
+	case *peg.Choice:
+		var ss []string
+		for _, a := range x.Alts {
+			ss = append(ss, mirrorString(a, swap))
+		}
+		sort.Strings(ss) // alternatives of single-rune choices may be ordered differently by the generator
+		return "(" + strings.Join(ss, " / ") + ")"
+	case *peg.Star:
+		return mirrorString(x.E, swap) + "*"
+	case *peg.Plus:
+		return mirrorString(x.E, swap) + "+"
+	case *peg.Opt:
+		return mirrorString(x.E, swap) + "?"
+	case *peg.Not:
+		return "!" + mirrorString(x.E, swap)
+	case *peg.And:
+		return "&" + mirrorString(x.E, swap)
+	case *peg.Capture:
+		return "<" + mirrorString(x.E, swap) + ">"
+	case *peg.Named:
+		return mirrorString(x.E, swap)
+	case *peg.CharSet:
+		if swap {
+			return swapQuotes(x.Set).String()
+		}
+		return x.Set.String()
+	case *peg.Action:
+		return ""
+	}
+	return e.String()
+}
+
+func startsWithQuote(e peg.Expr) (rune, bool) {
+	if c, ok := e.(*peg.Capture); ok {
+		e = c.E
+	}
+	seq, ok := e.(*peg.Seq)
+	if !ok || len(seq.Items) < 2 {
+		return 0, false
+	}
+	ru, ok := singleRune(seq.Items[0])
+	if !ok || (ru != '\'' && ru != '"') {
+		return 0, false
+	}
+	return ru, true
+}
+
+func ruleWQuotes(c *engine.Context) *report.Rule {
+	r := report.NewRule("W-QUOTES", "the single- and double-quoted alternatives of the grammar are mirror images of each other", 2)
+	m := pegOf(c)
+	if m.err != "" {
+		r.InfraFail("%s", m.err)
+		return r
+	}
+	requireRunning(r, m)
+	type q struct {
+		where string
+		e     peg.Expr
+	}
+	var singles, doubles []q
+	var collect func(rule string, e peg.Expr)
+	collect = func(rule string, e peg.Expr) {
+		if ru, ok := startsWithQuote(e); ok {
+			if ru == '\'' {
+				singles = append(singles, q{rule, e})
+			} else {
+				doubles = append(doubles, q{rule, e})
+			}
+			return
+		}
+		switch x := e.(type) {
+		case *peg.Choice:
+			for _, a := range x.Alts {
+				collect(rule, a)
+			}
+		case *peg.Capture:
+			collect(rule, x.E)
+		case *peg.Named:
+			collect(rule, x.E)
+		}
+	}
+	for _, sr := range m.run.Rules {
+		collect(sr.Name, peg.Normalize(sr.E))
+	}
+	used := map[int]bool{}
+	for _, s := range singles {
+		r.Instances++
+		want := mirrorString(s.e, true)
+		found := -1
+		for i, d := range doubles {
+			if !used[i] && mirrorString(d.e, false) == want {
+				found = i
+				break
+			}
+		}
+		ok := found >= 0
+		if ok {
+			used[found] = true
+		}
+		r.Oblige(ok)
+		r.Sample("single-quoted alternative in rule %s has a mirror-image double-quoted alternative: %v", s.where, ok)
+		if !ok {
+			f := r.Violation("single-quoted alternative in rule "+s.where+" has no mirror image", m.pegPos,
+				"the single-quoted alternative in rule %s is %s; no double-quoted alternative of the grammar equals it with the quote characters exchanged: the two spellings of a literal / member name no longer accept the same texts", s.where, s.e.String())
+			engine.Restrict(f, "C18", "C16")
+		}
+	}
+	for i, d := range doubles {
+		if !used[i] {
+			r.Instances++
+			r.Oblige(false)
+			f := r.Violation("double-quoted alternative in rule "+d.where+" has no mirror image", m.pegPos,
+				"the double-quoted alternative in rule %s is %s; no single-quoted alternative equals it with the quote characters exchanged", d.where, d.e.String())
+			engine.Restrict(f, "C18", "C16")
+		}
+	}
+	if len(singles) == 0 {
+		r.InfraFail("anchor unresolved: no quoted alternatives found in the grammar")
+	}
+	return r
+}
